@@ -591,10 +591,24 @@ pub fn run(
     RunOut { log, ..out }
 }
 
+/// the inner writer of the end-to-end verdict pipeline: `Summarize<Null>` is what `summarized()` builds
+struct NullW;
+impl cucumber::Writer<RW> for NullW {
+    type Cli = cucumber::cli::Empty;
+    async fn handle_event(&mut self, _: parser::Result<Event<Cucumber<RW>>>, _: &cucumber::cli::Empty) {}
+}
+impl<V: AsRef<str>> cucumber::writer::Arbitrary<RW, V> for NullW {
+    async fn write(&mut self, _: V) {}
+}
+impl cucumber::writer::NonTransforming for NullW {}
+
 fn drive<S>(stream: S, cfg: &RunCfg, rng: &mut Rng) -> RunOut
 where
     S: Stream<Item = parser::Result<Event<Cucumber<RW>>>>,
 {
+    use cucumber::{writer::Stats as _, Writer as _, WriterExt as _};
+    // every event the run delivers also goes through the REAL `Summarize` (C01 end to end)
+    let mut summ = NullW.summarized();
     futures::pin_mut!(stream);
     let fw = Arc::new(FlagWaker(AtomicBool::new(false), std::thread::current()));
     let waker = Waker::from(Arc::clone(&fw));
@@ -629,11 +643,16 @@ where
         match polled {
             Poll::Ready(Some(ev)) => {
                 log(describe_rx(&ev));
+                futures::executor::block_on(summ.handle_event(ev, &cucumber::cli::Empty));
                 idle_since = None;
                 continue;
             }
             Poll::Ready(None) => {
                 ended = true;
+                log(format!(
+                    "VERDICT {} {} {} {}",
+                    u8::from(summ.execution_has_failed()), summ.failed_steps(), summ.parsing_errors(), summ.hook_errors()
+                ));
                 break;
             }
             Poll::Pending => {
